@@ -39,6 +39,7 @@ func (x *Exec) ExecPaths(fr *frame, st *State, k func(st *State, val Value)) {
 		}
 	}
 	x.pathSteps++
+	x.checkLimits()
 	if x.pathSteps > 200000 {
 		panic(unsupported("path explosion in " + fn.String()))
 	}
